@@ -332,6 +332,22 @@ func TestVerifC18(t *testing.T) {
 		if msg := c18Check(re, samples, c); msg != "" {
 			rt.Fatalf("%s", msg)
 		}
+		// callers analyse every payload filter of a query first and use the results afterwards: what was
+		// returned for one expression must not change when another expression is analysed
+		if first, err := ConstantSuffix(expr); err == nil {
+			kept := append([]byte(nil), first...)
+			other := g.Draw(rt, "other").Render()
+			_, _ = ConstantSuffix(other)
+			_, _ = AcceptedLength(other)
+			second, _ := ConstantSuffix(expr)
+			if !bytes.Equal(first, kept) {
+				rt.Fatalf("ConstantSuffix(%q) returned %s; after analysing %q the returned slice holds %s", expr, c18Quote(kept), other, c18Quote(first))
+			}
+			if !bytes.Equal(second, kept) {
+				rt.Fatalf("ConstantSuffix(%q) = %s, after analysing %q it is %s", expr, c18Quote(kept), other, c18Quote(second))
+			}
+			c.LabelIf(len(kept) > 0, "suffix-kept-across-another-analysis")
+		}
 		// non-trivial: more than a plain literal/class sequence
 		for _, f := range feats {
 			switch f {
